@@ -113,6 +113,14 @@ def scenarios(tier):
     ch["hsfail"] = 1
     ch["explored"] = tuple(ch["explored"]) + ("hsfail",)
     S.append(mk("set-set-fine0-drop1-hsfail-dev3", ch, dev_bound=3 if q else None, max_depth=120, max_states=4000000))
+    # the server begins the WebSocket closing handshake (sends raise Disconnected inside the library) before the connection goes away:
+    # every API call made in that window (code entry, send, close) must survive the loss like any other in-flight command
+    for nm, a, b, fine, drops in (("set-set-fine0", "set", "set", (0,), (1, 0)), ("alloc-input-fine0", "alloc", "input", (0,), (1, 0)),
+                                  ("alloc-input-fine1", "alloc", "input", (1,), (0, 1))):
+        cw = cfg(a, b, 1, 1, fine, drops)
+        cw["wsclosing"] = True
+        cw["explored"] = tuple(cw["explored"]) + ("wsclosing",)
+        S.append(mk("%s-wsclosing-drop1-dev3" % nm, cw, dev_bound=3 if q else 4, max_depth=160))
     # the application closes while the connection comes and goes: the close handshake is resumed on the next connection
     cc = cfg("set", "set", 1, 1, (0,), (2, 0))
     cc["clients"][0]["threads"].append([("close",)])
